@@ -1,11 +1,14 @@
 package main
 
 import (
+	"unsafe"
+
 	"github.com/paulsonkoly/chess-3/board"
 )
 
 // Gen/Zobrist.v: the engine's Zobrist tables (math/rand/v2 PCG stream evaluated by the Go runtime
-// at package init, read through the verif hook) and the reverse-token layout constants.
+// at package init, read through the verif hook).
+// Gen/TokLayout.v: the reverse-token layout constants and the width of the token's integer type.
 func init() {
 	generators = append(generators, func() {
 		f := newFile("Zobrist.v", "From Coq Require Import NArith List.\nFrom Chess3 Require Import Model.Types Model.Board.\nImport ListNotations.\nOpen Scope N_scope.")
@@ -45,8 +48,16 @@ func init() {
 		}
 		f.p("].\n")
 		f.p("Definition zob_real : zobrist := mkZobrist\n  (fun c p s => nthN (nthN (nthN zob_pieces (cix c) []) p []) s 0)\n  zob_stm (fun i => nthN zob_castling i 0) (fun i => nthN zob_ep i 0).\n")
+	})
+}
+
+func init() {
+	generators = append(generators, func() {
+		f := newFile("TokLayout.v", "From Coq Require Import NArith List.\nFrom Chess3 Require Import Model.TokLayout.\nImport ListNotations.\nOpen Scope N_scope.")
 		lay := board.VerifTokenLayout()
-		f.p("(* reverse token layout as the source has it now: mask, shift for fifty / castling / ep / capture *)\n")
-		f.p("Definition token_layout : list N := [%d; %d; %d; %d; %d; %d; %d; %d].\n", lay[0], lay[1], lay[2], lay[3], lay[4], lay[5], lay[6], lay[7])
+		bits := 8 * uint64(unsafe.Sizeof(board.Reverse(0)))
+		f.p("(* reverse token layout as the source has it now: mask, shift for fifty / castling / ep / capture,\n   and the bit width of type Reverse *)\n")
+		f.p("Definition token_layout : list N := [%d; %d; %d; %d; %d; %d; %d; %d; %d].\n", lay[0], lay[1], lay[2], lay[3], lay[4], lay[5], lay[6], lay[7], bits)
+		f.p("Definition gen_layout : tok_layout := mkTokLayout %d %d %d %d %d %d %d %d %d.\n", lay[0], lay[1], lay[2], lay[3], lay[4], lay[5], lay[6], lay[7], bits)
 	})
 }
